@@ -668,6 +668,12 @@ func (x *Exec) runBlock(st *State, b *ssa.BasicBlock, prev *ssa.BasicBlock) []Ou
 func (x *Exec) loopEnv(st *State, fr *Frame, ld *loopDesc) *CEnv {
 	vars := map[string]V{}
 	x.bindParams(vars, fr.fn, fr.args)
+	// entry values of the parameters stay available as <name>0 (a loop variable may shadow the name)
+	for i, n := range declParamNames(fr.fn) {
+		if i < len(fr.args) {
+			vars[n+"0"] = fr.args[i]
+		}
+	}
 	// named locals visible at the loop, by their latest debug binding
 	for obj, v := range fr.names {
 		if obj.Pos() < ld.pos || true {
@@ -989,6 +995,12 @@ func (x *Exec) runInstrs(st *State, b *ssa.BasicBlock, idx int) []Outcome {
 					} else if c, isC := ins.X.(*ssa.Const); isC {
 						fr.names[obj] = st.constant(c)
 					}
+				} else if obj != nil && ins.IsAddr {
+					// an address-taken local: the name denotes the variable's address (use name.field / load*(name))
+					if v, ok := st.env[ins.X]; ok && v.K == KPtr {
+						v.Typ = ins.X.Type()
+						fr.names[obj] = v
+					}
 				}
 			}
 			continue
@@ -1125,6 +1137,8 @@ func (x *Exec) step(st *State, fr *Frame, in ssa.Instruction) {
 		} else {
 			data = st.allocLocal(ins.X.Type())
 			st.storeTyped(data, xv, ins.X.Type())
+			boxed := xv
+			data.Box = &boxed
 		}
 		st.env[ins] = V{K: KTuple, Fs: []V{tid, data}, Typ: ins.Type()}
 	case *ssa.TypeAssert:
